@@ -18,7 +18,7 @@
 (* Value descriptor v = [k, ty, v, i, s, nil, dyn, e, f, m]; leaves have   *)
 (*   the layout of event records (SFEvents), so leaf comparison is LeafEq. *)
 (***************************************************************************)
-EXTENDS Integers, Sequences, SequencesExt, SFNum, SFEvents
+EXTENDS Integers, Sequences, SequencesExt, FiniteSets, SFNum, SFEvents
 
 ScalarKinds == {"bool", "string", "int8", "int16", "int32", "int64", "int", "uint8", "uint16", "uint32", "uint64",
                 "uint", "float32", "float64"}
@@ -39,6 +39,12 @@ NamedTD(id) ==
     [] id = "RecTree" -> TStruct(<<Fld("Name", <<78, 97, 109, 101>>, TScalar("string")),
                                    Fld("Kids", <<75, 105, 100, 115>>, TSlice(TNamed("RecTree"))),
                                    FldO("Idx", <<73, 100, 120>>, <<"omitempty">>, TMap(TPtr(TNamed("RecTree"))))>>)
+    \* types whose unfolding the user defines (gotype.Unfolders option / Expander), see ExpUser
+    [] id = "UStr" -> TStruct(<<Fld("V", <<86>>, TScalar("string"))>>)
+    [] id = "UI64" -> TStruct(<<Fld("N", <<78>>, TScalar("int64"))>>)
+    [] id \in {"UPt", "UExp"} -> TStruct(<<Fld("X", <<88>>, TScalar("int64")), Fld("Y", <<89>>, TScalar("int64"))>>)
+    [] id = "UObj" -> TStruct(<<Fld("K", <<75>>, TScalar("string")), Fld("N", <<78>>, TScalar("int64"))>>)
+    [] id = "UProc" -> TStruct(<<Fld("N", <<78>>, TScalar("int64")), Fld("First", <<70, 105, 114, 115, 116>>, TScalar("int64"))>>)
     [] OTHER -> TStruct(<<Fld("A", <<65>>, TScalar("int"))>>)        \* ZeroT ZeroP FoldT FoldObj RegT RegObj
 Resolve(T) == IF T.k = "named" /\ T.id \notin RefuseIds THEN NamedTD(T.id) ELSE T
 
@@ -288,11 +294,47 @@ ZeroPlain(T0) ==
     [] T.k = "map" -> VObj(<<>>, TRUE)
     [] T.k = "struct" -> VObj([j \in 1..Len(T.f) |-> [key |-> <<j>>, val |-> ZeroPlain(T.f[j].t)]], FALSE)
     [] OTHER -> EvNil
+\* ---- user-defined unfolders (harness/gotype_user.go) ----------------------------------
+(* The three function forms of gotype.Unfolders and the Expander interface: *)
+(*   UStr   primitive unfolder from string: V = "u:" + s (what null does is *)
+(*          not documented: as the empty string at top level, skipped as    *)
+(*          an element - unspecified)                                      *)
+(*   UI64   primitive unfolder from int64                                  *)
+(*   UPt    state unfolder, UExp Expander: an array of exactly two integers *)
+(*   UObj   state unfolder built from Cont / Push / Done: an object with   *)
+(*          the members k (string) and n (integer), each at most once      *)
+(*   UProc  processing unfolder: the array is unfolded into a []int64 cell,*)
+(*          then N = len(cell), First = cell[0]                            *)
+(* For every other stream value the user code returns an error or converts *)
+(* without a range check: unspecified.                                     *)
+UserUnfoldIds == {"UStr", "UI64", "UPt", "UExp", "UObj", "UProc"}
+IsI64(sv) == sv.k = "int" /\ FitsKind(sv.v, "int64")
+UFld(j, val) == [key |-> <<j>>, val |-> val]
+MemberIdx(sv, name) == {j \in 1..Len(sv.v) : sv.v[j].key = name}
+ExpUser(id, sv) ==
+  CASE id = "UStr" ->
+         IF sv.k = "str" THEN VObj(<<UFld(1, EvStr(<<117, 58>> \o sv.v))>>, FALSE) ELSE Unspec
+    [] id = "UI64" -> IF IsI64(sv) THEN VObj(<<UFld(1, sv)>>, FALSE) ELSE Unspec
+    [] id \in {"UPt", "UExp"} ->
+         IF sv.k = "arr" /\ Len(sv.v) = 2 /\ IsI64(sv.v[1]) /\ IsI64(sv.v[2])
+         THEN VObj(<<UFld(1, sv.v[1]), UFld(2, sv.v[2])>>, FALSE) ELSE Unspec
+    [] id = "UObj" ->
+         LET kk == IF sv.k = "obj" THEN MemberIdx(sv, <<107>>) ELSE {}
+             nn == IF sv.k = "obj" THEN MemberIdx(sv, <<110>>) ELSE {} IN
+         IF sv.k = "obj" /\ Cardinality(kk) = 1 /\ Cardinality(nn) = 1 /\ Len(sv.v) = 2
+            /\ sv.v[CHOOSE j \in kk : TRUE].val.k = "str" /\ IsI64(sv.v[CHOOSE j \in nn : TRUE].val)
+         THEN VObj(<<UFld(1, sv.v[CHOOSE j \in kk : TRUE].val), UFld(2, sv.v[CHOOSE j \in nn : TRUE].val)>>, FALSE) ELSE Unspec
+    [] id = "UProc" ->
+         IF sv.k = "arr" /\ Len(sv.v) < 256 /\ \A j \in 1..Len(sv.v) : IsI64(sv.v[j])
+         THEN VObj(<<UFld(1, EvInt(CUint(<<Len(sv.v)>>))), UFld(2, IF Len(sv.v) = 0 THEN EvInt(CZero) ELSE sv.v[1])>>, FALSE) ELSE Unspec
+    [] OTHER -> Unspec
+
 RECURSIVE Exp(_, _, _), ExpFields(_, _, _)
 ZeroLeafOld(old) == old
 Exp(T0, old, sv) ==
   LET T == Resolve(T0) IN
   CASE T0.k = "named" /\ T0.id \in {"FoldT", "FoldObj", "ZeroT", "ZeroP", "RegT", "RegObj"} -> Unspec
+    [] T0.k = "named" /\ T0.id \in UserUnfoldIds -> ExpUser(T0.id, sv)
     [] T.k = "iface" -> sv                                   \* generic data: the stream's value itself
     [] T.k = "ptr" -> IF sv.k = "nil" THEN EvNil
                       ELSE IF old.k = "fresh" \/ old.nil THEN Exp(T.e[1], [k |-> "fresh"], sv) ELSE Exp(T.e[1], old.e[1], sv)
